@@ -10,7 +10,10 @@ sys.path.insert(0, '/verif')
 from replayers import monitor    # noqa: E402
 
 NAMES = ['A', 'B', 'PREY', 'NONE', 'A', 'add_tag', 'get_tag_name', 'itemize', '_tag_names', '_tag_counter',
-         '__len__', '__class__', '__dict__', '__init__', 'x y', '', '0', 'None', 'self', 'tag_name', 'é']
+         '__len__', '__class__', '__dict__', '__init__', 'x y', '', '0', 'None', 'self', 'tag_name', 'é',
+         # names bound at module level in Tags.py: on the global library `Tags.<name>` finds the module global first
+         'TagLibrary', '_module_library', '__file__', 'deprecated', 'DuplicateTagError', 'List', '__getattr__',
+         '_internal', '__private']
 
 
 def run_history(hist, props=None):
@@ -45,7 +48,8 @@ def run_history(hist, props=None):
                     names.append(n)
                 except Tags.DuplicateTagError:
                     # a rejected name changes nothing (checked below); a fresh ordinary name must be accepted
-                    if n not in names and not hasattr(Tags.TagLibrary, n) and n not in ('_tag_names', '_tag_counter'):
+                    if n not in names and not hasattr(Tags.TagLibrary, n) and n not in ('_tag_names', '_tag_counter') \
+                            and not (where == 'global' and n in vars(Tags)):
                         out.append(('C19', f'{w}: fresh name {n!r} rejected'))
             elif op[0] == 'other_add':
                 try:
@@ -109,7 +113,7 @@ def histories(seed, budget, prop='C19'):
                        ('lookup', 'A'), ('lookup', 'B'), ('lookup', 'NONE'), ('other_add', 'Z'), ('add', 'NONE')])
         for n in NAMES:
             yield (where, [('add', 'A'), ('add', n), ('add', 'B'), ('add', n), ('name', 2), ('lookup', 'B'),
-                           ('other_add', n), ('add', 'C')])
+                           ('lookup', n), ('other_add', n), ('add', 'C'), ('lookup', n), ('len',)])
         yield (where, [('lookup', 'nope'), ('lookup', '_tag_names'), ('lookup', '_tag_counter')])
     for _ in range(budget):
         ops = []
